@@ -8,3 +8,4 @@ def load_all():
     for m in MODULES:
         importlib.import_module("contracts." + m)
 MODULES += ["util", "errors"]
+MODULES += ["output"]
